@@ -384,6 +384,35 @@ pub fn graph_term(g: &[(Vec<(String, GV)>, Vec<(u32, Vec<(String, GV)>)>)]) -> S
     coq_list(&g.iter().map(|(a, es)| format!("{{| g_attrs := {}; g_edges := {} |}}", attrs_term(a),
         coq_list(&es.iter().map(|(s, ea)| format!("({}, {})", s, attrs_term(ea))).collect::<Vec<_>>()))).collect::<Vec<_>>())
 }
+/// a stanza that works on few nodes with many edge / edge-attribute statements in random order: edges of
+/// one source are added before and after attributes are put on its other edges, attributes are re-assigned
+/// with equal and with different values, pre-existing nodes (globals pn*) take part
+pub fn churn_stanza(rng: &mut Rng, nglobals: usize) -> String {
+    let k = 2 + rng.below(3);
+    let mut names: Vec<String> = Vec::new();
+    let mut body = String::new();
+    // new nodes first or pre-existing ones first: decides which ids are the lower ones
+    for i in 0..nglobals { names.push(format!("pn{}", i)); }
+    for i in 0..k { body.push_str(&format!("  node cn{}\n", i)); names.push(format!("cn{}", i)); }
+    let mut edges: Vec<(usize, usize)> = Vec::new();
+    let nops = 5 + rng.below(10);
+    let src = rng.below(names.len());          // most operations share one source node
+    for _ in 0..nops {
+        let a = if rng.chance(75) { src } else { rng.below(names.len()) };
+        if edges.is_empty() || rng.chance(45) {
+            let b = rng.below(names.len());
+            body.push_str(&format!("  edge {} -> {}\n", names[a], names[b]));
+            if !edges.contains(&(a, b)) { edges.push((a, b)); }
+        } else {
+            let own: Vec<(usize, usize)> = edges.iter().filter(|e| e.0 == a).cloned().collect();
+            let (x, y) = if own.is_empty() || rng.chance(10) { *rng.pick(&edges) } else { *rng.pick(&own) };
+            let name = rng.pick(&["ea", "eb", "ec", "keep"]);
+            let v = if rng.chance(85) { format!("\"{}-{}-{}\"", names[x], names[y], name) } else { format!("{}", rng.below(2)) };
+            body.push_str(&format!("  attr ({} -> {}) {} = {}\n", names[x], names[y], name, v));
+        }
+    }
+    format!("\n(module) @_mchurn {{\n{}}}\n", body)
+}
 pub fn c09_gen(rng: &mut Rng, n: usize) -> Vec<Case> {
     quiet_panics();
     let mut out = Vec::new();
@@ -406,7 +435,9 @@ pub fn c09_gen(rng: &mut Rng, n: usize) -> Vec<Case> {
             opts.max_stanzas = 3;
             opts.node_globals = cur_nodes.min(2);
             let p = gen_program(rng, &opts);
-            runs.push((rng.chance(50), p.text(), p.supplied));
+            let mut text = p.text();
+            if rng.chance(55) { let ng = (0..opts.node_globals).filter(|i| text.contains(&format!("global pn{}", i))).count(); text.push_str(&churn_stanza(rng, ng)); }
+            runs.push((rng.chance(50), text, p.supplied));
             cur_nodes += 1;     // not exact; only used to decide how many node globals may be declared (bounded by existing nodes)
             cur_nodes = cur_nodes.min(nodes.max(1));
         }
@@ -430,6 +461,7 @@ fn order_independent_error(code: u32) -> bool { matches!(code, 5 | 7 | 8 | 9 | 1
 
 pub fn c02_case(inp: &ExecInput) -> Option<Case> {
     let file = load(&inp.dsl).ok()?;
+    if k7_class(&file) { return None; }      // known finding K7: the generators stay outside its class
     let tree = parse_python(&inp.src);
     let info = TreeInfo::new(&tree, &inp.src);
     let s = execute_fresh(&file, &tree, &info, &inp.supplied, false, false);
@@ -458,7 +490,8 @@ pub fn c02_gen(rng: &mut Rng, n: usize) -> Vec<Case> {
     let mut tries = 0;
     while out.len() < n && tries < n * 20 {
         tries += 1;
-        let inp = crate::c01::gen_input(rng, &opts);
+        // one case in five: scoped-variable idioms (inheritance through nested definers), definitions before reads
+        let inp = if rng.chance(20) { c04_input_mode(rng, true) } else { crate::c01::gen_input(rng, &opts) };
         if let Some(c) = c02_case(&inp) { out.push(c); }
     }
     out
@@ -702,7 +735,10 @@ pub fn c03_gen(rng: &mut Rng, n: usize) -> Vec<Case> {
 pub fn c03_replay(j: &serde_json::Value) -> Case { quiet_panics(); c03_case(&input_from_json(j)).expect("replay loads") }
 
 // C04: programs built from scoped-variable idioms
-pub fn c04_input(rng: &mut Rng) -> ExecInput {
+pub fn c04_input(rng: &mut Rng) -> ExecInput { c04_input_mode(rng, false) }
+/// `ordered`: an order-insensitive program (for the strict-vs-lazy stream): every definition precedes every
+/// read in file order, no re-reads around later definitions, no duplicate definitions
+pub fn c04_input_mode(rng: &mut Rng, ordered: bool) -> ExecInput {
     let mut pre: Vec<String> = Vec::new();
     let mut st: Vec<String> = Vec::new();
     let inherit = rng.chance(80);
@@ -712,23 +748,37 @@ pub fn c04_input(rng: &mut Rng) -> ExecInput {
     if rng.chance(70) { st.push("(function_definition name: (identifier) @name) @def {\n  node @def.scope\n  attr (@def.scope) kind = \"def\", name = (source-text @name)\n  let @def.k = (start-row @def)\n  let @name.owner = @def\n}\n".into()); }
     if rng.chance(40) { st.push("(class_definition) @cls {\n  node @cls.scope\n  attr (@cls.scope) kind = \"class\"\n}\n".into()); }
     // duplicate definition on the same node (error) — sometimes
-    if rng.chance(15) { st.push("(function_definition) @again {\n  let @again.k = 99\n}\n".into()); }
+    // a definition whose scope expression itself reads a scoped variable (acyclic: `tag` depends on `owner`)
+    if rng.chance(35) { st.push("(function_definition name: (identifier) @n2) {\n  let @n2.owner.tag = (source-text @n2)\n}\n".into()); }
+    // class K7 (known finding): `owner` defined through a scope that reads `owner`
+    if rng.chance(4) { st.push("(function_definition name: (identifier) @n3) {\n  let @n3.owner.owner = 1\n}\n".into()); }
+    if !ordered && rng.chance(15) { st.push("(function_definition) @again {\n  let @again.k = 99\n}\n".into()); }
+    let ndefs = st.len();
     // reads through other capture names / list elements / nested scopes
     if inherit && rng.chance(70) { st.push("(identifier) @id {\n  node r\n  attr (r) text = (source-text @id)\n  edge r -> @id.scope\n}\n".into()); }
     if rng.chance(50) { st.push(if inherit { "(function_definition body: (block (_)* @stmts)) @d {\n  node r\n  attr (r) k = @d.k\n  for s in @stmts {\n    node e\n    edge e -> s.scope\n  }\n}\n".into() } else { "(function_definition body: (block (_)* @stmts)) @d {\n  node r\n  attr (r) k = @d.k\n  print @stmts\n}\n".to_string() }); }
     if rng.chance(40) { st.push("(function_definition name: (identifier) @n) {\n  node r\n  attr (r) krow = @n.owner.k\n}\n".into()); }
+    if rng.chance(40) { st.push("(function_definition) @dt {\n  node r\n  attr (r) tag = @dt.tag\n}\n".into()); }
     if rng.chance(10) { st.push("(call function: (identifier) @f) {\n  node r\n  attr (r) k = @f.k\n}\n".into()); }   // not inherited: undefined unless defined on this node
     if inherit && rng.chance(30) { st.push("(return_statement) @r {\n  node q\n  edge q -> @r.scope\n  attr (q -> @r.scope) via = \"return\"\n}\n".into()); }
     if st.is_empty() { st.push("(module) @m {\n  node @m.scope\n}\n".into()); }
     // reads of one node repeated around later definitions (a lookup must see the NEAREST definition at the time of the read)
-    if inherit && rng.chance(60) {
+    if ordered {
+        // a value (not only a node) inherited through several nested definers, read from statements
+        if inherit { pre.push("inherit .lvl".into()); st.insert(0, "(function_definition name: (identifier) @name) @def {\n  let @def.lvl = (source-text @name)\n}\n".into());
+                     st.push("[(pass_statement) (return_statement) (expression_statement)] @s {\n  node q\n  attr (q) enclosing = @s.lvl\n}\n".into()); }
+        let nd = ndefs + if inherit { 1 } else { 0 };
+        let mut reads: Vec<String> = st.split_off(nd);
+        for i in (1..reads.len()).rev() { let j = rng.below(i + 1); reads.swap(i, j); }
+        st.extend(reads);
+    } else if inherit && rng.chance(60) {
         let rd = |tag: &str| format!("(pass_statement) @p {{\n  node r\n  attr (r) when = \"{}\"\n  edge r -> @p.scope\n}}\n", tag);
         let rd2 = |tag: &str| format!("(return_statement) @p {{\n  node r\n  attr (r) when = \"{}\"\n  edge r -> @p.scope\n}}\n", tag);
         let k = 1 + rng.below(3);
         for i in 0..k { let pos = rng.below(st.len() + 1); st.insert(pos, if rng.chance(50) { rd(&format!("t{}", i)) } else { rd2(&format!("t{}", i)) }); }
     }
     // stanza order matters for strict execution: outer definitions first, then a random interleaving
-    if rng.chance(50) { for i in (1..st.len()).rev() { let j = rng.below(i + 1); st.swap(i, j); } }
+    if ordered {} else if rng.chance(50) { for i in (1..st.len()).rev() { let j = rng.below(i + 1); st.swap(i, j); } }
     else if rng.chance(50) { st.sort_by_key(|x| if x.starts_with("(module)") { 0 } else if x.starts_with("(class_definition)") { 1 } else { 2 }); }
     let mut v = pre; v.extend(st);
     // deeply nested sources with same-range parent/child chains
@@ -885,12 +935,71 @@ pub fn known_main(id: &str) {
             let (ra, rb) = (run(a, true), run(b, true));
             if (ra == "ok") != (rb == "ok") { format!("REPRODUCED lazy result depends on stanza order when a shorthand body iterates a scoped variable ({} vs {})", ra, rb) } else { format!("NOT-REPRODUCED ({} vs {})", ra, rb) }
         }
+        "K7" => {
+            let dsl = "(module (expression_statement (identifier) @x) (expression_statement (identifier) @y) (expression_statement (identifier) @z)) @_m\n{\n  node n\n  let @x.a = @y\n  let @x.a.b = @z\n  let @x.a.b.a = 5\n  attr (n) r = @x.a.b.a\n}\n";
+            let run3 = |lazy: bool| -> String {
+                let file = match load(dsl) { Ok(f) => f, Err(e) => return format!("load-error {}", &e[..e.len().min(60)]) };
+                let src3 = "p\nq\nr\n";
+                let tree = parse_python(src3);
+                let info = TreeInfo::new(&tree, src3);
+                match execute_fresh(&file, &tree, &info, &[], lazy, false) { Obs::Ok(_) => "ok".into(), Obs::Err(c, _) => format!("err {}", c), Obs::Panic => "panic".into() }
+            };
+            let (rs, rl) = (run3(false), run3(true));
+            if rs == "ok" && rl == "err 17" { "REPRODUCED strict execution succeeds, lazy execution fails with RecursivelyDefinedScopedVariable (scoped-variable definitions whose scope expressions read each other's names)".to_string() } else { format!("NOT-REPRODUCED (strict {} lazy {})", rs, rl) }
+        }
         _ => "UNKNOWN".into(),
     };
     println!("{}", line);
 }
 
 use tree_sitter_graph::ast;
+/// Known finding K7 (C02): the scoped-variable NAMES of a file depend on each other cyclically through the
+/// scope expressions of their definitions (name A depends on B when some `let/var/node <scope>.A` has a
+/// scope expression reading `_.B`; a self-loop counts).  Lazy forcing of A then re-enters A.
+pub fn k7_class(file: &ast::File) -> bool {
+    fn reads(e: &ast::Expression, out: &mut Vec<String>) {
+        use ast::Expression as E;
+        match e {
+            E::ListLiteral(l) => l.elements.iter().for_each(|x| reads(x, out)),
+            E::SetLiteral(l) => l.elements.iter().for_each(|x| reads(x, out)),
+            E::ListComprehension(c) => { reads(&c.element, out); reads(&c.value, out); }
+            E::SetComprehension(c) => { reads(&c.element, out); reads(&c.value, out); }
+            E::Variable(ast::Variable::Scoped(v)) => { out.push(v.name.as_str().to_string()); reads(&v.scope, out); }
+            E::Call(c) => c.parameters.iter().for_each(|x| reads(x, out)),
+            _ => {}
+        }
+    }
+    fn defs(stmts: &[ast::Statement], deps: &mut Vec<(String, Vec<String>)>) {
+        use ast::Statement as S;
+        let mut def = |v: &ast::Variable, deps: &mut Vec<(String, Vec<String>)>| { if let ast::Variable::Scoped(sv) = v { let mut r = Vec::new(); reads(&sv.scope, &mut r); deps.push((sv.name.as_str().to_string(), r)); } };
+        for s in stmts {
+            match s {
+                S::DeclareImmutable(d) => def(&d.variable, deps),
+                S::DeclareMutable(d) => def(&d.variable, deps),
+                S::CreateGraphNode(d) => def(&d.node, deps),
+                S::Scan(d) => d.arms.iter().for_each(|a| defs(&a.statements, deps)),
+                S::If(d) => d.arms.iter().for_each(|a| defs(&a.statements, deps)),
+                S::ForIn(d) => defs(&d.statements, deps),
+                _ => {}
+            }
+        }
+    }
+    let mut deps: Vec<(String, Vec<String>)> = Vec::new();
+    for st in &file.stanzas { defs(&st.statements, &mut deps); }
+    // reachability closure over names
+    let names: Vec<String> = { let mut v: Vec<String> = deps.iter().map(|d| d.0.clone()).collect(); v.sort(); v.dedup(); v };
+    for start in &names {
+        let mut seen: Vec<String> = Vec::new();
+        let mut todo: Vec<String> = deps.iter().filter(|d| &d.0 == start).flat_map(|d| d.1.clone()).collect();
+        while let Some(x) = todo.pop() {
+            if &x == start { return true; }
+            if seen.contains(&x) { continue; }
+            seen.push(x.clone());
+            todo.extend(deps.iter().filter(|d| d.0 == x).flat_map(|d| d.1.clone()));
+        }
+    }
+    false
+}
 type CapInfo = (String, tree_sitter::CaptureQuantifier, usize, usize);
 pub fn collect_captures_expr(e: &ast::Expression, out: &mut Vec<CapInfo>) {
     use ast::Expression as E;
